@@ -36,6 +36,7 @@ def run(ctx: Ctx):
     overlap(ctx)
     indices(ctx)
     translation(ctx)
+    self_exclusion(ctx)
     legacy(ctx)
     from .common import no_shared_writes
 
@@ -409,10 +410,13 @@ def indices(ctx: Ctx):
     sig = only = where_call = None
     for n in ast.walk(src):
         if isinstance(n, ast.Assign) and u(n.targets[0]) == "significance":
-            if sig is None:
+            from ..stmts import enclosing_guards as _eg
+
+            gts = [u(t) for t, _p in _eg(src, n)]
+            if sig is None and not gts:
                 sig = u(n.value)
-            else:
-                only = u(n.value)
+            elif any("only_larger" in g for g in gts):
+                only = u(n.value)  # the assignment made under `if only_larger`
         if isinstance(n, ast.Subscript) and isinstance(n.value, ast.Call) and u(n.value.func) in ("np.where", "np.nonzero") and u(n.slice) == "0" and len(n.value.args) == 1:
             where_call = "positions of the true entries of a row of the significance matrix"
         if isinstance(n, ast.Call) and u(n.func) == "np.flatnonzero":
@@ -489,11 +493,71 @@ def indices(ctx: Ctx):
     for prop, alpha in (("pairwise_indices", "self._alpha"), ("pairwise_indices_alt", "self._alpha_alt")):
         e = expand(ctx.repo, sl, prop, stop=lambda mm: True)
         leaf = main_leaf(e)
-        want = (
-            f"np.array([self._pairwise_indices(self._pairwise_significance_p_vals(col), self._pairwise_significance_t_stats(col), {alpha}, self._only_larger) "
+        want = [
+            f"np.array([self._pairwise_indices(self._pairwise_significance_p_vals(col), self._pairwise_significance_t_stats(col), {alpha}, self._only_larger{extra}) "
             "for col in range(len(self._column_order_signed_indexes))]).T"
-        )
+            for extra in ("", ", col")  # with or without the selected display position (masked by the callee, see self-exclusion)
+        ]
         ctx.check_expr("index-sets", f"cubepart.py::_Slice.{prop}", leaf, want, "one test per DISPLAYED column, p and t of the same selected column, transposed to rows x columns")
+
+
+def self_exclusion(ctx: Ctx):
+    """"... never the column itself".  On the ordinary path a column against itself has t = 0, hence p = 1, hence is never
+    below alpha.  The overlaps helper reports a CONSTANT for the self-comparison; if that constant is below 1 the index
+    sets must exclude the selected column explicitly: the selected position reaches `_pairwise_indices` and is masked."""
+    from ..dectab import DTop, ModelInterp, Raises
+
+    hc = ctx.repo.opt_cls(MM, "_PairwiseSignificaneBetweenSubvariablesHelper")
+    where = f"{MM}::_PairwiseSignificaneBetweenSubvariablesHelper.p_vals [a == b]"
+    if hc is None or ctx.repo.lookup(hc, "p_vals") is None:
+        ctx.undecided("self-exclusion", where, "overlaps helper not found", "")
+        return
+    body = SUMMARIZER.summarize(ctx.repo.lookup(hc, "p_vals").node)
+
+    def atoms(x):
+        if u(x) in ("self._idx_a", "self._idx_b"):
+            return 1
+        raise KeyError
+
+    try:
+        self_p = ModelInterp(atoms).ev(body)
+    except (DTop, Raises) as t:
+        ctx.undecided("self-exclusion", where, f"DECTAB: {t}", "p-value of a column against itself")
+        return
+    sl_ = ctx.repo.cls("cubepart.py", "_Slice")
+    pi = ctx.repo.lookup(sl_, "_pairwise_indices")
+    params = [a for a in pi.params if a not in ("self", "cls")] if pi is not None else []
+    # the parameter of _pairwise_indices whose column is masked:  significance[:, <param>] = False
+    masked = set()
+    if pi is not None:
+        for n in ast.walk(pi.node):
+            if isinstance(n, ast.Assign) and isinstance(n.targets[0], ast.Subscript) and u(n.value) == "False":
+                slc = n.targets[0].slice
+                if isinstance(slc, ast.Tuple) and len(slc.elts) == 2 and isinstance(slc.elts[1], ast.Name) and slc.elts[1].id in params:
+                    masked.add(slc.elts[1].id)
+    for prop in ("pairwise_indices", "pairwise_indices_alt"):
+        m = ctx.repo.lookup(sl_, prop)
+        w = f"cubepart.py::_Slice.{prop}"
+        passes = False
+        for c in ast.walk(m.node):
+            if isinstance(c, ast.Call) and u(c.func).endswith("._pairwise_indices"):
+                # the enclosing comprehension's loop variable handed to a masked parameter
+                for comp in ast.walk(m.node):
+                    if isinstance(comp, (ast.ListComp, ast.GeneratorExp)) and any(x is c for x in ast.walk(comp)):
+                        loopvars = {g.target.id for g in comp.generators if isinstance(g.target, ast.Name)}
+                        bound = dict(zip(params, c.args))
+                        bound.update({k.arg: k.value for k in c.keywords if k.arg})
+                        if any(p_ in masked and isinstance(v_, ast.Name) and v_.id in loopvars for p_, v_ in bound.items()):
+                            passes = True
+        if isinstance(self_p, (int, float)) and not isinstance(self_p, bool) and self_p >= 1:
+            ctx.held("self-exclusion", w, f"p(a, a) = {self_p} on every path", "a column is never significantly different from itself")
+        elif passes:
+            ctx.held("self-exclusion", w, f"p(a, a) = {self_p!r} on the overlaps path; the selected column is masked in the index sets", "never the column itself")
+        elif isinstance(self_p, (int, float)) and not isinstance(self_p, bool):
+            ctx.violated("self-exclusion", w, f"the overlaps helper reports p(a, a) = {self_p} and the index sets keep every column with p < alpha", "the selected column is excluded from its own index sets",
+                         "without only-larger mode every column lists itself on the overlaps path")
+        else:
+            ctx.undecided("self-exclusion", w, f"p(a, a) = {self_p!r}", "never the column itself")
 
 
 def translation(ctx: Ctx):
